@@ -58,6 +58,22 @@ def check(repo: Repo, rep: Report) -> None:
                        "the elapsed time of the action is computed as (before - after): the next tick is scheduled a period PLUS the action's duration "
                        "later instead of a period minus it, and the ticks leave the grid")
     rep.ob("P8-elapsed-sign", pp, f"{nsub} elapsed-time subtraction(s) found", nsub >= 1, "the periodic wrapper no longer measures how long the action took")
+    # ... and it is subtracted from the period IN SECONDS (elapsed is `.total_seconds()`): the minuend is to_seconds(period)
+    perp = pp.params[1]
+    secs = {u(n_.targets[0] if isinstance(n_, ast.Assign) else n_.target) for n_ in pp.direct_nodes() if isinstance(n_, (ast.Assign, ast.AnnAssign)) and n_.value is not None
+            and isinstance(n_.value, ast.Call) and isinstance(n_.value.func, ast.Attribute) and n_.value.func.attr == "to_seconds" and [u(a) for a in n_.value.args] == [perp]}
+    for g_ in pp.walk():
+        if not g_.is_func:
+            continue
+        for n_ in g_.direct_nodes():
+            if isinstance(n_, ast.BinOp) and isinstance(n_.op, ast.Sub) and isinstance(n_.right, ast.Call) and isinstance(n_.right.func, ast.Attribute) \
+                    and n_.right.func.attr == "total_seconds":
+                okm = u(n_.left) in secs or (isinstance(n_.left, ast.Call) and isinstance(n_.left.func, ast.Attribute) and n_.left.func.attr == "to_seconds"
+                                             and [u(a) for a in n_.left.args] == [perp])
+                rep.ob("P8-elapsed-sign", g_, f"{g_.qual}: `{short(n_)}` subtracts the elapsed seconds from the period in seconds", okm,
+                       f"the remaining wait is computed as `{short(n_)}`: the minuend is not to_seconds({perp}) — with a timedelta period the "
+                       f"subtraction raises TypeError out of the first tick (the run loop is left enabled and the remaining ticks never run), "
+                       f"with another value the ticks leave the grid")
     # timer(d, p), d != p: ticks stay on the grid d + k*p: the next due time is the PREVIOUS due time plus the period
     rep.rule("P7-grid", "observable_timer_duetime_and_period: next due = previous due + period (re-based on now only when that is already past)", floor=2)
     ta = repo.fn("reactivex/observable/timer.py", "observable_timer_duetime_and_period.subscribe.action")
